@@ -75,6 +75,21 @@ func vCheckDecoded(m *Message, rawLen int) {
 			if n, ok := rr.Data.(string); ok {
 				vAssert(len(n) <= 2*rawLen, "decoded name no longer than the message (pointers only go backwards)")
 			}
+			if h, ok := rr.Data.(HTTPS); ok {
+				for _, ip := range h.IPv4Hint {
+					vAssert(len(ip) == 4, "every ipv4hint address has 4 bytes")
+				}
+				for _, ip := range h.IPv6Hint {
+					vAssert(len(ip) == 16, "every ipv6hint address has 16 bytes")
+				}
+				vAssert(len(h.ALPN) <= rawLen && len(h.IPv4Hint) <= rawLen && len(h.IPv6Hint) <= rawLen, "decoded lists bounded by the input length")
+			}
+			if sv, ok := rr.Data.(SVCB); ok {
+				vAssert(len(sv.Params) <= rawLen, "decoded lists bounded by the input length")
+			}
+			if t, ok := rr.Data.(TXT); ok {
+				vAssert(len(t) <= rawLen, "decoded lists bounded by the input length")
+			}
 		}
 	}
 }
